@@ -28,6 +28,10 @@ type SrvConf struct {
 	VanishIn  string   `json:"vanish_in"`          // "", auth, reg: the peer vanishes while the server is inside that callback
 	VanishRST bool     `json:"vanish_rst"`         // reset instead of an orderly close
 	CloseIn   string   `json:"close_in,omitempty"` // "", auth, reg: Server.Close is called while the server is inside that callback (full mode)
+	AutoPing  bool     `json:"auto_ping,omitempty"` // full mode: the server is built with AutoReplyPings()
+	// EarlySender (full mode): the registration callback hands the channel to a task that sends a
+	// message on it as soon as the channel calls itself established
+	EarlySender bool `json:"early_sender,omitempty"`
 }
 
 var allSchemes = []string{"guest", "plain", "key", "transport", "external"}
@@ -37,7 +41,7 @@ func GenSrvConf(t *simrt.Tape) SrvConf {
 	c := SrvConf{}
 	c.Transport = []string{"tcp", "tcp", "tcp", "ws", "inproc"}[t.Draw(5)]
 	c.TLSCap = t.Draw(2) == 0
-	c.Comp = [][]string{{"none"}, {"none"}, {"none", "gzip"}, {"gzip", "none"}}[t.Draw(4)]
+	c.Comp = [][]string{{"none"}, {"none"}, {"none", "gzip"}, {"gzip", "none"}, {"none"}, {"gzip"}}[t.Draw(6)]
 	c.Enc = [][]string{{"none"}, {"none", "tls"}, {"tls", "none"}, {"tls"}}[t.Draw(4)]
 	n := 1 + t.Draw(3)
 	perm := []int{0, 1, 2, 3, 4}
@@ -221,6 +225,30 @@ func (s *SUT) register(conn int) func(ctx context.Context, cand lime.Node, c *li
 			note = err.Error()
 		}
 		s.h.Add(conn, "reg", map[string]interface{}{"candidate": cand.String(), "node": n.String()}, "", note)
+		if s.Conf.EarlySender && err == nil {
+			// a router that was handed the channel and starts using it the moment it looks established
+			go func() {
+				for i := 0; i < 400; i++ {
+					if c.Established() {
+						txt := lime.TextDocument("routed")
+						m := &lime.Message{}
+						m.SetContent(&txt).SetID("early-" + c.ID())
+						sctx, scancel := context.WithTimeout(context.Background(), 5*time.Second)
+						_ = c.SendMessage(sctx, m)
+						scancel()
+						s.w.Count("early-sender-sent")
+						return
+					}
+					st := c.State()
+					if st == lime.SessionStateFailed || st == lime.SessionStateFinished {
+						return
+					}
+					if i >= 200 {
+						time.Sleep(5 * time.Millisecond)
+					}
+				}
+			}()
+		}
 		return n, err
 	}
 }
@@ -299,6 +327,11 @@ func StartSUT(w *World, h *History, conf SrvConf, port int) (*SUT, error) {
 				}
 				return nil
 			}
+		}
+		if conf.AutoPing {
+			// registered first: the first handler whose predicate accepts an envelope gets it, and
+			// this one's predicate looks into every request command
+			b.AutoReplyPings()
 		}
 		b.MessagesHandlerFunc(func(ctx context.Context, m *lime.Message, snd lime.Sender) error { return hk("message")(ctx, m, snd) })
 		b.NotificationsHandlerFunc(func(ctx context.Context, n *lime.Notification) error { return hk("notification")(ctx, n, nil) })
